@@ -40,7 +40,7 @@ TABLE_FLAGS = os.environ.get("VERIF_C01_TABLE_FLAGS", TABLE_FLAGS)
 # table-ratio-zero-column; repair: pending_fixes/C01-table-ratio-zero-column.diff).  The width algorithm is C07's model, which is
 # faithful to today's code; with 0 (repaired code) the driver answers `unmodelled` for trees holding such a table until that model
 # carries the repaired variant.
-RATIO_ZERO_COLUMN = int(os.environ.get("VERIF_C01_RATIO_ZERO_COLUMN", "1"))
+RATIO_ZERO_COLUMN = int(os.environ.get("VERIF_C01_RATIO_ZERO_COLUMN", "0"))
 FLAGS = f"{FRAMES_VARIANT},{TEXT_FLAGS},{TABLE_FLAGS},{RATIO_ZERO_COLUMN}"
 
 
